@@ -77,6 +77,8 @@ structure CaseSt where
   st : Index := {}
   pfx : Path := []
   scanOrder : List Path := []
+  pfxDirs : Path := []
+  rootName : String := "ws"
 
 def CaseSt.text (c : CaseSt) (tid : String) : Option String :=
   match c.texts.find? (·.1 == tid) with
@@ -503,7 +505,7 @@ def runOp (c : CaseSt) (t : List String) : String × CaseSt :=
 def step (c : CaseSt) (line : String) : Option String × CaseSt :=
   let t := (line.splitOn " ").filter (· != "")
   match t with
-  | "case" :: n :: _ => (none, { name := n })
+  | "case" :: n :: _ => (none, { name := n, pfx := ["ws"] })
   | ["text", tid, h] => (none, { c with texts := (tid, if h == "-" then some "" else unhexStr? h) :: c.texts })
   | ["text", tid] => (none, { c with texts := (tid, some "") :: c.texts })
   | "ast" :: tid :: _ =>
@@ -519,6 +521,8 @@ def step (c : CaseSt) (line : String) : Option String × CaseSt :=
     | none =>
       -- not valid UTF-8: the file exists but cannot be read as text
       (none, { c with st := { st with disk := ainsert st.disk f { text := "\u0000unreadable", parsed := none } } })
+  | ["prefix", p] => (none, { c with pfxDirs := pathOf p, pfx := pathOf p ++ [c.rootName] })
+  | ["rootname", n] => (none, { c with rootName := n, pfx := c.pfxDirs ++ [n] })
   | ["hint", "scanorder", o] =>
     (none, { c with scanOrder := if o == "-" then [] else (o.splitOn ",").map pathOf })
   | ["mkdir", p] =>
